@@ -79,9 +79,6 @@ def writer_job(fn, entry, callees=(), loops=0, wip=OPEN, **kw):
     return d
 
 
-DEPTH = ('UNDECIDED: assigns-clause / postcondition obligations about the depth-indexed ghost records fail after the loop whose '
-         'body is a replaced write_<struct> call (the loop-contract pass evaluates cqv_w_left[cqv_w_depth-1] after havocking '
-         'cqv_w_depth); needs the frame restated without depth-indexed assigns targets; no conformance assertion fails')
 JOBS += [
     writer_job('write_statistics', 'h_write_statistics', wip=DONE),
     writer_job('write_logical_type', 'h_write_logical_type', wip=DONE, est_s=120),
@@ -93,8 +90,8 @@ JOBS += [
                defines=['CQV_PT_WRITER=1', 'CQV_FN_write_schema_element=1', 'CQV_SE_NAMED=1'], wip=DONE),
     writer_job('write_column_metadata', 'h_write_column_metadata', callees=['write_statistics'], loops=2, wip=DONE),
     writer_job('write_column_chunk', 'h_write_column_chunk', callees=['write_column_metadata'], wip=DONE),
-    writer_job('write_row_group', 'h_write_row_group', callees=['write_column_chunk'], loops=1, note=DEPTH),
+    writer_job('write_row_group', 'h_write_row_group', callees=['write_column_chunk'], loops=1, wip=DONE, est_s=180),
     writer_job('parquet_write_file_metadata', 'h_write_file_metadata', callees=['write_schema_element', 'write_row_group'], loops=3,
-               note=DEPTH),
+               wip=DONE, est_s=30),
     writer_job('parquet_write_page_header', 'h_write_page_header', callees=['write_statistics'], wip=DONE),
 ]
